@@ -45,7 +45,7 @@ def run_C02(tier, seed):
     q = Q(tier)
     res = []
     # (a) design level: code-shaped verifier == published relation, exhaustively over a small field, with seeded-bug negatives
-    cfgs = [(5, 2, 2, 1, "verifier")] if q else [(7, 2, 2, 1, "verifier"), (7, 1, 8, 2, "verifier"), (5, 4, 2, 2, "verifier"), (5, 2, 4, 1, "verifier")]
+    cfgs = [(5, 2, 2, 1, "verifier")] if q else [(7, 2, 2, 1, "verifier"), (5, 1, 8, 2, "verifier"), (5, 4, 2, 2, "verifier"), (5, 2, 4, 1, "verifier")]
     negs = [(7, 2, 4, 1, "verifier", b, "T1") for b in (["dsum_cap", "radix3"] if q else ["dsum_cap", "radix3", "v_ynm", "no_y"])]
     res.append(stages.algebra_stage("C02", cfgs, negs))
     # (b) the code's final MSM against the published relation at the actual challenges, in 252-bit arithmetic
